@@ -260,6 +260,14 @@ def wl_sequence(ctx, rng, i):
             b1 = G.call("bundle:list", lambda: B(members, allow_custom=True), members=members)
             b2 = G.call("bundle:objects-kwarg", lambda: B(objects=members, allow_custom=True), members=members)
             G.call("bundle:positional", lambda: B(obj, d, allow_custom=True), data=d)
+            extra = json.loads(json.dumps(d))
+            lst2, lst3, empty = [obj, d], [d], []
+            G.call("bundle:list-then-object", lambda: B(lst2, extra, allow_custom=True), members=lst2, extra=extra)
+            G.call("bundle:list-then-object-again", lambda: B(lst2, extra, allow_custom=True), members=lst2, extra=extra)
+            G.call("bundle:empty-list-then-object", lambda: B(empty, extra, allow_custom=True), members=empty, extra=extra)
+            G.call("bundle:object-then-list", lambda: B(extra, lst3, allow_custom=True), members=lst3, extra=extra)
+            G.call("bundle:list-then-list", lambda: B(lst2, lst3, allow_custom=True), members=lst2, more=lst3)
+            G.call("bundle:list-plus-objects-kwarg", lambda: B(lst2, objects=lst3, allow_custom=True), members=lst2, objects=lst3)
             if b1 is not None:
                 G.watch("bundle", b1)
                 G.call("serialize:bundle", lambda: b1.serialize(pretty=True))
@@ -309,6 +317,7 @@ def wl_sequence(ctx, rng, i):
 
 WORKLOADS = [
     Workload("sequence", wl_sequence, quick=lambda: len(BASES) * 3, thorough=lambda: len(BASES) * 50),
+    __import__("stixmon.ambient", fromlist=["workload"]).workload("C13"),
 ]
 
 
